@@ -203,11 +203,16 @@ func runClaimScenario(sc claimScenario, rec *verifkit.Recorder, fail func(string
 		ctxMsg := func() string {
 			return fmt.Sprintf("claim reconcile %d of scenario %s\n  claim conditions before: %v\n  claim conditions after:  %v\n  XR %q after: exists=%v conditions=%v claimRef=%v\n  reconcile error: %v statusWritten=%v", i, verifkit.JSON(sc), fmtConds(before), fmtConds(after), refAfter, xrAfter != nil, fmtConds(condsOf(xrAfter)), verifsim.Nested(xrAfter, "spec", "claimRef"), err, statusWritten)
 		}
+		// "observed its bound XR Ready=True": the XR version the reconcile read must not have belonged to another
+		// claim (an unbound XR may be bound by this very reconcile), and the XR must be Ready and name this claim.
+		ok := xrReady && bound && !foreign
 		switch {
-		case before["Ready"].Status != "True" && !(xrReady && bound):
-			fail("C05 violated: CLAIM-READY-TURNED: the claim went Ready %q -> True but its XR is ready=%v bound-to-this-claim=%v\n  %s", before["Ready"].Status, xrReady, bound, ctxMsg())
-		case before["Ready"].Status == "True" && statusWritten && !foreign && !(xrReady && bound):
+		case before["Ready"].Status != "True" && !ok:
+			fail("C05 violated: CLAIM-READY-TURNED: the claim went Ready %q -> True but its XR is ready=%v bound-to-this-claim=%v, and the XR version it read belonged to another claim=%v\n  %s", before["Ready"].Status, xrReady, bound, foreign, ctxMsg())
+		case before["Ready"].Status == "True" && statusWritten && !foreign && !ok:
 			fail("C05 violated: CLAIM-READY-KEPT: the claim reconcile completed and stored Ready=True but its XR is ready=%v bound-to-this-claim=%v\n  %s", xrReady, bound, ctxMsg())
+		case before["Ready"].Status == "True" && statusWritten && foreign && bound:
+			fail("C05 violated: CLAIM-READY-KEPT: the claim reconcile read an XR that belonged to another claim, went on to bind it and stored Ready=True\n  %s", ctxMsg())
 		}
 	}
 	return sim
